@@ -1,6 +1,6 @@
 /-
 C08 — the SOURCE-TRANSLATION tie (TRANSLATOR.md).  `Verif/Generated/TransC08.lean` is regenerated on every run from the
-current source text of `delphin.tsdb.escape/unescape/split/join` by harness/common/py2lean.py; the theorems below
+current source text of `delphin.tsdb.escape/unescape/split/join/make_record` by harness/common/py2lean.py; the theorems below
 prove each regenerated definition equal, for all inputs, to the hand-written model function of `Model.lean` that the
 property theorems of `Props.lean` are about.  An edit of those Python functions changes the generated file and these
 proofs are re-checked (or break).  Errors: the model's `Err` is mapped to the translator's `PyErr` by `errPy`
@@ -46,4 +46,14 @@ theorem join_translated (vs : List (Option (List Char))) :
   apply List.map_congr_left
   intro v _
   cases v <;> simp [escape_translated]
+/-- `tsdb.make_record(colmap, fields)` (source) = `makeRecord` (model).  The translation keeps the value type opaque
+(`Val`) and a field as the mirror structure `PyField` (`Field.py`); `colmap.get(f.name, None)` is an `Option Val`
+whose `none` is the Python default `None` — the same object as a stored `None` (`Val.none`), hence `getD .none`. -/
+theorem make_record_translated (colmap : List (List Char × Val)) (fields : List Field) :
+    (Verif.Trans.C08.make_record colmap (fields.map Field.py)).map (·.getD .none) = makeRecord colmap fields := by
+  unfold Verif.Trans.C08.make_record makeRecord
+  simp only [List.map_map]
+  apply List.map_congr_left
+  intro f _
+  rfl
 end Verif.C08
